@@ -14,6 +14,7 @@ Self-contained (imports only the model).
 * name tables of a loaded component are duplicate-free; the emitted statements inherit that.
 * `resolveImport` / `loadFile` depend on the bundle's existence list only through the probes.
 -/
+set_option linter.unusedSimpArgs false
 namespace Pepper.CompShift
 open Pepper.Comp Pepper.Constraint
 
@@ -262,6 +263,19 @@ theorem mapM_except_congr {α β β' ε} (f : α → Except ε β) (f' : α → 
     (hf : ∀ x, f' x = (f x).map h) (l : List α) : l.mapM f' = (l.mapM f).map (List.map h) := by
   have := mapM_map_except f f' id h hf l
   simpa using this
+
+theorem mapM_except_congr_mem {α β β' ε} (f : α → Except ε β) (f' : α → Except ε β') (h : β → β') :
+    ∀ (l : List α), (∀ x ∈ l, f' x = (f x).map h) → l.mapM f' = (l.mapM f).map (List.map h)
+  | [], _ => rfl
+  | x :: r, hf => by
+    have ih := mapM_except_congr_mem f f' h r (fun y hy => hf y (List.mem_cons_of_mem _ hy))
+    simp only [List.mapM_cons, ih, hf x (List.mem_cons_self)]
+    cases f x with
+    | error e => rfl
+    | ok y =>
+      cases List.mapM f r with
+      | error e => rfl
+      | ok ys => rfl
 
 /-! ### `clean_const` commutes with a renaming that fixes the names the source mentions -/
 
@@ -662,13 +676,13 @@ theorem addStmt_rn {ρ : String → String} (h : Inj ρ) {a0 k : Nat} (hr : Renu
   | struct opt name strands domain text => exact addStmt_struct_rn ρ k s a opt name strands domain text
   | kinetic low high ins outs => exact addStmt_kinetic_rn ρ k s a low high ins outs
 
-theorem addStmt_anon_le {s s' : St} {a a' : Nat} {st : Stmt} (h : addStmt s a st = .ok (s', a')) : a ≤ a' := by
-  cases st with
-  | seq name items len =>
+theorem addStmt_anon_le {s s' : St} {a a' : Nat} : ∀ {st : Stmt}, addStmt s a st = .ok (s', a') → a ≤ a'
+  | .seq name items len, h => by
     unfold addStmt at h
-    split at h
-    · cases h
-    · split at h
+    by_cases hs : (s.findSeq name).isSome = true
+    · simp [hs] at h
+    · simp only [hs, Bool.false_eq_true, if_false] at h
+      split at h
       · split at h
         · injection h with h; injection h with _ h; omega
         · cases h
@@ -682,7 +696,7 @@ theorem addStmt_anon_le {s s' : St} {a a' : Nat} {st : Stmt} (h : addStmt s a st
             injection h with h; injection h with _ h
             have := buildSuper_anon_le hb
             omega
-  | strand dummy name items len =>
+  | .strand dummy name items len, h => by
     unfold addStmt at h
     by_cases hs : (s.findStrand name).isSome = true
     · simp [hs, throw, throwThe, MonadExceptOf.throw, bind, Except.bind] at h
@@ -699,9 +713,7 @@ theorem addStmt_anon_le {s s' : St} {a a' : Nat} {st : Stmt} (h : addStmt s a st
           · simp only [Except.ok.injEq, Prod.mk.injEq] at h
             have := buildSuper_anon_le hb
             omega
-  | struct opt name strands domain text =>
-    have h2 := addStmt_struct_rn id 0 s a opt name strands domain text
-    -- the counter is returned unchanged: read it off the definition
+  | .struct opt name strands domain text, h => by
     unfold addStmt at h
     simp only [bind, Except.bind, pure, Except.pure] at h
     repeat' split at h
@@ -709,8 +721,7 @@ theorem addStmt_anon_le {s s' : St} {a a' : Nat} {st : Stmt} (h : addStmt s a st
       | (cases h; done)
       | (simp only [Except.ok.injEq, Prod.mk.injEq] at h; omega)
       | (simp [throw, throwThe, MonadExceptOf.throw] at h; done)
-      | skip
-  | kinetic low high ins outs =>
+  | .kinetic low high ins outs, h => by
     unfold addStmt at h
     simp only [bind, Except.bind, pure, Except.pure] at h
     repeat' split at h
@@ -718,6 +729,482 @@ theorem addStmt_anon_le {s s' : St} {a a' : Nat} {st : Stmt} (h : addStmt s a st
       | (cases h; done)
       | (simp only [Except.ok.injEq, Prod.mk.injEq] at h; omega)
       | (simp [throw, throwThe, MonadExceptOf.throw] at h; done)
-      | skip
+
+theorem addStmts_rn {ρ : String → String} (h : Inj ρ) {a0 k : Nat} (hr : Renum ρ a0 k) :
+    ∀ (stmts : List Stmt) (s : St) (a : Nat), a0 ≤ a → (∀ st ∈ stmts, ∀ x ∈ stmtSeqNames st, ρ x = x) →
+      addStmts (rename ρ s) (a + k) stmts = (addStmts s a stmts).map (rnRes ρ k)
+  | [], s, a, _, _ => rfl
+  | st :: r, s, a, ha, hx => by
+    simp only [addStmts, addStmt_rn h hr s a ha st (hx st List.mem_cons_self)]
+    cases hs : addStmt s a st with
+    | error e => rfl
+    | ok res =>
+      obtain ⟨s', a'⟩ := res
+      simp only [Except.map, rnRes]
+      exact addStmts_rn h hr r s' a' (Nat.le_trans ha (addStmt_anon_le hs))
+        (fun st' hm => hx st' (List.mem_cons_of_mem _ hm))
+
+theorem addIO_rn {ρ : String → String} (h : Inj ρ) (s : St) (inputs outputs : List Port)
+    (hx : ∀ p ∈ inputs ++ outputs, ρ p.seq = p.seq) :
+    addIO (rename ρ s) inputs outputs = (addIO s inputs outputs).map (rename ρ) := by
+  unfold addIO
+  dsimp only
+  refine bind_map_congr (m1 := List.map (fun (x : ItemRef × Option String) => (rnI ρ x.1, x.2))) ?_ ?_
+  · refine mapM_except_congr_mem _ _ _ _ ?_
+    intro p hp
+    have hf := findSeq_rename h s p.seq
+    rw [hx p (List.mem_append_left _ hp)] at hf
+    simp only [hf, findStruct_rename]
+    cases s.findSeq p.seq with
+    | none => rfl
+    | some e =>
+      cases p.struct with
+      | none => rfl
+      | some sn =>
+        simp only [Option.map_some, Option.isNone_map]
+        cases (s.findStruct sn).isNone <;> rfl
+  · intro ins
+    refine bind_map_congr (m1 := List.map (fun (x : ItemRef × Option String) => (rnI ρ x.1, x.2))) ?_ ?_
+    · refine mapM_except_congr_mem _ _ _ _ ?_
+      intro p hp
+      have hf := findSeq_rename h s p.seq
+      rw [hx p (List.mem_append_right _ hp)] at hf
+      simp only [hf, findStruct_rename]
+      cases s.findSeq p.seq with
+      | none => rfl
+      | some e =>
+        cases p.struct with
+        | none => rfl
+        | some sn =>
+          simp only [Option.map_some, Option.isNone_map]
+          cases (s.findStruct sn).isNone <;> rfl
+    · intro outs
+      simp [Except.map, pure, Except.pure, rename, List.map_map, Function.comp_def]
+
+/-- the sequence names a component source defines or mentions (statements and port declarations) -/
+def srcSeqNames (src : Src) : List String :=
+  src.stmts.flatMap stmtSeqNames ++ (src.inputs ++ src.outputs).map (·.seq)
+
+/-- **Renaming theorem.**  For every injective renaming `ρ` of local sequence names that fixes the names the
+    source mentions and renumbers the generated names from `a` on by `k`: loading at counter `a + k` fails
+    exactly when loading at `a` fails (with the same error) and otherwise yields the renamed tables and the
+    counter shifted by `k`. -/
+theorem load_rename {ρ : String → String} (h : Inj ρ) {a k : Nat} (hr : Renum ρ a k) (src : Src) (n : Nat)
+    (pfx : String) (hx : ∀ x ∈ srcSeqNames src, ρ x = x) :
+    load src n pfx (a + k) = (load src n pfx a).map (rnRes ρ k) := by
+  unfold load
+  by_cases hn : (src.params.length != n) = true
+  · simp [hn, throw, throwThe, MonadExceptOf.throw, bind, Except.bind, Except.map]
+  · simp only [hn, Bool.false_eq_true, if_false]
+    have h0 : ({ name := src.name, pfx := pfx, params := src.params } : St) =
+        rename ρ { name := src.name, pfx := pfx, params := src.params } := rfl
+    rw [h0]
+    refine bind_map_congr (m1 := rnRes ρ k)
+      (addStmts_rn h hr src.stmts _ a (Nat.le_refl _) (fun st hst x hxm => hx x ?_)) ?_
+    · simp only [srcSeqNames, List.mem_append, List.mem_flatMap]
+      exact Or.inl ⟨st, hst, hxm⟩
+    · intro res
+      obtain ⟨s, a'⟩ := res
+      simp only [rnRes]
+      refine bind_map_congr (m1 := rename ρ) (addIO_rn h s src.inputs src.outputs (fun p hp => hx _ ?_)) ?_
+      · simp only [srcSeqNames, List.mem_append, List.mem_map]
+        exact Or.inr ⟨p, List.mem_append.1 hp, rfl⟩
+      · intro s2
+        rfl
+
+/-! ### the concrete renumbering -/
+
+/-- no sequence name the source defines or mentions has the reserved form `_Anon<decimal>` -/
+def userNamesOk (src : Src) : Bool := (srcSeqNames src).all (fun x => !isAnon x)
+
+/-- `userNamesOk` as a (decidable) proposition -/
+def UserNamesOk (src : Src) : Prop := userNamesOk src = true
+
+instance (src : Src) : Decidable (UserNamesOk src) := inferInstanceAs (Decidable (_ = true))
+
+theorem userNamesOk_iff {src : Src} : UserNamesOk src ↔ ∀ x ∈ srcSeqNames src, ∀ n, x ≠ anonName n := by
+  unfold UserNamesOk userNamesOk
+  simp only [List.all_eq_true, Bool.not_eq_true']
+  constructor
+  · intro h x hx n
+    exact not_isAnon_ne (h x hx) n
+  · intro h x hx
+    cases hi : isAnon x with
+    | false => rfl
+    | true =>
+      obtain ⟨n, hn⟩ := isAnon_iff.1 hi
+      exact absurd hn (h x hx n)
+
+theorem shift_inj (a k : Nat) : Inj (shift a k) := fun _ _ h => shift_injective a k h
+
+theorem shift_renum (a k : Nat) : Renum (shift a k) a k := fun _ hn => shift_anonName hn
+
+theorem shift_fixes {src : Src} (hu : UserNamesOk src) (a k : Nat) : ∀ x ∈ srcSeqNames src, shift a k x = x := by
+  intro x hx
+  unfold UserNamesOk userNamesOk at hu
+  simp only [List.all_eq_true, Bool.not_eq_true'] at hu
+  exact shift_user (hu x hx)
+
+/-! ### the emitted specification of a renamed state -/
+
+/-- `Emit.compStmts` with every local sequence name `x` written as `ρ x` -/
+def compStmtsWith (ρ : String → String) (s : St) : List Pil.Stmt :=
+  let p := s.pfx
+  ((s.baseSeqs.filter (·.len != 0)).map (fun e => Pil.Stmt.seq (p ++ ρ e.name) e.const))
+  ++ ((s.supSeqs.filter (·.len != 0)).map (fun e =>
+        Pil.Stmt.sup (p ++ ρ e.name) ((e.items.filter (!·.dummy)).map (fun i => fullName p (ρ i.name) i.rev))))
+  ++ (s.strands.map (fun e => Pil.Stmt.strand (p ++ e.name) e.dummy
+        ((e.items.filter (!·.dummy)).map (fun i => fullName p (ρ i.name) i.rev))))
+  ++ (s.structs.map (fun e => Pil.Stmt.struct (p ++ e.name) (some (String.ofList e.opt.fmtG ++ "nt"))
+        (e.strands.map (p ++ ·)) e.struct))
+
+/-- `Comp.emitPil` with every local sequence name `x` written as `ρ x` -/
+def emitPilWith (ρ : String → String) (s : St) : List String :=
+  let p := s.pfx
+  let names := fun (its : List ItemRef) =>
+    joinWith " " ((its.filter (!·.dummy)).map (fun i => fullName p (ρ i.name) i.rev))
+  ((s.baseSeqs.filter (·.len != 0)).map (fun e =>
+      "sequence " ++ p ++ ρ e.name ++ " = " ++ String.ofList e.const ++ " : " ++ toString e.len))
+  ++ ((s.supSeqs.filter (·.len != 0)).map (fun e =>
+      "sup-sequence " ++ p ++ ρ e.name ++ " = " ++ names e.items ++ " : " ++ toString e.len))
+  ++ (s.strands.map (fun e =>
+      "strand " ++ (if e.dummy then "[dummy] " else "") ++ p ++ e.name ++ " = " ++ names e.items ++ " : " ++ toString e.len))
+  ++ (s.structs.map (fun e =>
+      "structure [" ++ String.ofList e.opt.fmtG ++ "nt] " ++ p ++ e.name ++ " = " ++
+        joinWith " + " (e.strands.map (p ++ ·)) ++ " : " ++ String.ofList e.struct))
+  ++ (s.kins.map (fun k =>
+      "kinetic [" ++ (match k.low with | some d => String.ofList d.fmtF | none => "0.000000") ++ " /M/s < k < " ++
+        (match k.high with | some d => String.ofList d.fmtF | none => "inf") ++ " /M/s] " ++
+        joinWith " + " (k.ins.map (p ++ ·)) ++ " -> " ++ joinWith " + " (k.outs.map (p ++ ·))))
+
+/-- `Comp.emitDes` with every local sequence name `x` written as `ρ x` -/
+def emitDesWith (ρ : String → String) (s : St) : List String :=
+  let p := s.pfx
+  (s.structs.map (fun e => "structure " ++ p ++ e.name ++ " = " ++ String.ofList e.struct))
+  ++ ((s.baseSeqs.filter (·.len != 0)).map (fun e => "sequence " ++ p ++ ρ e.name ++ " = " ++ String.ofList e.const))
+  ++ (s.structs.flatMap (fun e =>
+      [p ++ e.name ++ " : " ++ joinWith " " ((e.bases.filter (·.len != 0)).map (fun b => fullName p (ρ b.name) b.rev))]
+      ++ (if e.opt.isZero then [] else [p ++ e.name ++ " < " ++ String.ofList e.opt.fmtF])))
+
+theorem compStmtsWith_id (s : St) : compStmtsWith id s = Emit.compStmts s := rfl
+theorem emitPilWith_id (s : St) : emitPilWith id s = emitPil s := by
+  unfold emitPilWith emitPil
+  congr 5
+theorem emitDesWith_id (s : St) : emitDesWith id s = emitDes s := rfl
+
+theorem filter_items_rn (ρ : String → String) (its : List ItemRef) :
+    (its.map (rnI ρ)).filter (!·.dummy) = (its.filter (!·.dummy)).map (rnI ρ) := by
+  rw [List.filter_map]; rfl
+
+theorem baseSeqs_rename (ρ : String → String) (s : St) :
+    (rename ρ s).baseSeqs.filter (·.len != 0) = (s.baseSeqs.filter (·.len != 0)).map (rnE ρ) := by
+  simp only [St.baseSeqs, rename, List.filter_map]; rfl
+
+theorem supSeqs_rename (ρ : String → String) (s : St) :
+    (rename ρ s).supSeqs.filter (·.len != 0) = (s.supSeqs.filter (·.len != 0)).map (rnE ρ) := by
+  simp only [St.supSeqs, rename, List.filter_map]; rfl
+
+theorem compStmts_rename (ρ : String → String) (s : St) :
+    Emit.compStmts (rename ρ s) = compStmtsWith ρ s := by
+  unfold Emit.compStmts compStmtsWith
+  simp only [baseSeqs_rename, supSeqs_rename, List.map_map]
+  simp [rename, Function.comp_def, rnE, rnT, rnS, filter_items_rn, List.map_map, Emit.itemRaw]
+
+theorem emitPil_rename (ρ : String → String) (s : St) : emitPil (rename ρ s) = emitPilWith ρ s := by
+  unfold emitPil emitPilWith
+  simp only [baseSeqs_rename, supSeqs_rename, List.map_map]
+  simp [rename, Function.comp_def, rnE, rnT, rnS, filter_items_rn, List.map_map, Comp.itemNames]
+  congr 3
+
+theorem emitDes_rename (ρ : String → String) (s : St) : emitDes (rename ρ s) = emitDesWith ρ s := by
+  unfold emitDes emitDesWith
+  simp only [baseSeqs_rename, List.map_map]
+  simp [rename, Function.comp_def, rnE, rnS, rnB, List.map_map, List.filter_map, List.flatMap_map]
+  rfl
+
+/-! ### uniqueness of names -/
+
+/-- the three name tables of a component are duplicate-free -/
+structure NamesNodup (s : St) : Prop where
+  seqs : (s.seqs.map (·.name)).Nodup
+  strands : (s.strands.map (·.name)).Nodup
+  structs : (s.structs.map (·.name)).Nodup
+
+theorem findSeq_none_iff {s : St} {n : String} : (s.findSeq n).isSome = false ↔ n ∉ s.seqs.map (·.name) := by
+  unfold St.findSeq
+  rw [← Bool.not_eq_true, List.find?_isSome]
+  simp only [List.mem_map, beq_iff_eq]
+
+theorem findStrand_none_iff {s : St} {n : String} : (s.findStrand n).isSome = false ↔ n ∉ s.strands.map (·.name) := by
+  unfold St.findStrand
+  rw [← Bool.not_eq_true, List.find?_isSome]
+  simp only [List.mem_map, beq_iff_eq]
+
+theorem findStruct_none_iff {s : St} {n : String} : (s.findStruct n).isSome = false ↔ n ∉ s.structs.map (·.name) := by
+  unfold St.findStruct
+  rw [← Bool.not_eq_true, List.find?_isSome]
+  simp only [List.mem_map, beq_iff_eq]
+
+theorem nodup_append_singleton {l : List String} {x : String} (h : l.Nodup) (hx : x ∉ l) : (l ++ [x]).Nodup := by
+  rw [List.nodup_append]
+  refine ⟨h, by simp, ?_⟩
+  intro a ha b hb
+  simp only [List.mem_singleton] at hb
+  subst hb
+  rintro rfl
+  exact hx ha
+
+theorem registerAnon_fold_inv (new : List SeqE) :
+    ∀ (its : List ItemRef) (s : St), (s.seqs.map (·.name)).Nodup →
+      let s' := its.foldl (fun s i =>
+        if (s.findSeq i.name).isSome then s
+        else match new.find? (·.name == i.name) with
+          | some e => { s with seqs := s.seqs ++ [e] }
+          | none => s) s
+      (s'.seqs.map (·.name)).Nodup ∧ s'.strands = s.strands ∧ s'.structs = s.structs
+  | [], s, h => ⟨h, rfl, rfl⟩
+  | i :: r, s, h => by
+    simp only [List.foldl_cons]
+    by_cases hs : (s.findSeq i.name).isSome = true
+    · simp only [hs, if_true]
+      exact registerAnon_fold_inv new r s h
+    · simp only [hs, Bool.false_eq_true, if_false]
+      cases hn : new.find? (·.name == i.name) with
+      | none => exact registerAnon_fold_inv new r s h
+      | some e =>
+        have he : e.name = i.name := by simpa using List.find?_some hn
+        have hs' : (s.findSeq i.name).isSome = false := by simpa using hs
+        have hnot := findSeq_none_iff.1 hs'
+        have := registerAnon_fold_inv new r { s with seqs := s.seqs ++ [e] }
+          (by simp only [List.map_append, List.map_cons, List.map_nil]
+              exact nodup_append_singleton h (he ▸ hnot))
+        exact this
+
+theorem registerAnon_inv (s : St) (b : Built) (h : (s.seqs.map (·.name)).Nodup) :
+    ((registerAnon s b).seqs.map (·.name)).Nodup ∧ (registerAnon s b).strands = s.strands ∧
+      (registerAnon s b).structs = s.structs :=
+  registerAnon_fold_inv b.newAnon b.items s h
+
+theorem markInStrand_names (s : St) (bs : List BaseRef) :
+    (markInStrand s bs).seqs.map (·.name) = s.seqs.map (·.name) := by
+  simp only [markInStrand, List.map_map]
+  apply List.map_congr_left
+  intro e _
+  simp only [Function.comp]
+  split <;> rfl
+
+theorem addStmt_namesNodup {s s' : St} {a a' : Nat} (hn : NamesNodup s) :
+    ∀ {st : Stmt}, addStmt s a st = .ok (s', a') → NamesNodup s'
+  | .seq name items len, h => by
+    unfold addStmt at h
+    by_cases hs : (s.findSeq name).isSome = true
+    · simp [hs] at h
+    · have hnot := findSeq_none_iff.1 (by simpa using hs)
+      simp only [hs, Bool.false_eq_true, if_false] at h
+      split at h
+      · split at h
+        · injection h with h; injection h with h _; subst h
+          exact ⟨by simpa using nodup_append_singleton hn.seqs hnot, hn.strands, hn.structs⟩
+        · cases h
+      · cases hc : cleanConst s items with
+        | error e => simp [hc, bind, Except.bind] at h
+        | ok cs =>
+          cases hb : buildSuper a cs len with
+          | error e => simp [hc, hb, bind, Except.bind] at h
+          | ok b =>
+            simp only [hc, hb, bind, Except.bind, pure, Except.pure] at h
+            injection h with h; injection h with h _; subst h
+            have := registerAnon_inv
+              { s with seqs := s.seqs ++ [⟨name, true, false, b.len, [], b.items, b.bases, false⟩] } b
+              (by simpa using nodup_append_singleton hn.seqs hnot)
+            refine ⟨this.1, ?_, ?_⟩
+            · rw [this.2.1]; exact hn.strands
+            · rw [this.2.2]; exact hn.structs
+  | .strand dummy name items len, h => by
+    unfold addStmt at h
+    by_cases hs : (s.findStrand name).isSome = true
+    · simp [hs, throw, throwThe, MonadExceptOf.throw, bind, Except.bind] at h
+    · have hnot := findStrand_none_iff.1 (by simpa using hs)
+      simp only [hs, Bool.false_eq_true, if_false] at h
+      cases hc : cleanConst s items with
+      | error e => simp [hc, bind, Except.bind] at h
+      | ok cs =>
+        cases hb : buildSuper a cs len with
+        | error e => simp [hc, hb, bind, Except.bind] at h
+        | ok b =>
+          simp only [hc, hb, bind, Except.bind, pure, Except.pure] at h
+          split at h
+          · simp [throw, throwThe, MonadExceptOf.throw] at h
+          · simp only [Except.ok.injEq, Prod.mk.injEq] at h
+            obtain ⟨h, _⟩ := h
+            subst h
+            have := registerAnon_inv
+              { s with strands := s.strands ++ [⟨name, dummy, b.len, b.items, b.bases, false⟩] } b hn.seqs
+            refine ⟨by rw [markInStrand_names]; exact this.1, ?_, ?_⟩
+            · show ((registerAnon _ b).strands.map (·.name)).Nodup
+              rw [this.2.1]
+              simpa using nodup_append_singleton hn.strands hnot
+            · show ((registerAnon _ b).structs.map (·.name)).Nodup
+              rw [this.2.2]
+              exact hn.structs
+  | .struct opt name strands domain text, h => by
+    unfold addStmt at h
+    by_cases hs : (s.findStruct name).isSome = true
+    · simp [hs, throw, throwThe, MonadExceptOf.throw, bind, Except.bind] at h
+    · have hnot := findStruct_none_iff.1 (by simpa using hs)
+      have hstr : ∀ (l : List StrandE),
+          (l.map (fun (o : StrandE) => if strands.contains o.name then { o with inStructure := true } else o)).map (·.name)
+            = l.map (·.name) := by
+        intro l
+        simp only [List.map_map]
+        apply List.map_congr_left
+        intro o _
+        simp only [Function.comp]
+        split <;> rfl
+      simp only [hs, Bool.false_eq_true, if_false, bind, Except.bind, pure, Except.pure] at h
+      repeat' split at h
+      all_goals first
+        | (cases h; done)
+        | (simp [throw, throwThe, MonadExceptOf.throw] at h; done)
+        | (simp only [Except.ok.injEq, Prod.mk.injEq] at h
+           obtain ⟨h, _⟩ := h
+           subst h
+           exact ⟨hn.seqs, by rw [hstr]; exact hn.strands,
+             by simpa using nodup_append_singleton hn.structs hnot⟩)
+  | .kinetic low high ins outs, h => by
+    unfold addStmt at h
+    simp only [bind, Except.bind, pure, Except.pure] at h
+    repeat' split at h
+    all_goals first
+      | (cases h; done)
+      | (simp [throw, throwThe, MonadExceptOf.throw] at h; done)
+      | (simp only [Except.ok.injEq, Prod.mk.injEq] at h
+         obtain ⟨h, _⟩ := h
+         subst h
+         exact ⟨hn.seqs, hn.strands, hn.structs⟩)
+
+theorem addStmts_namesNodup {s' : St} {a' : Nat} :
+    ∀ (stmts : List Stmt) (s : St) (a : Nat), NamesNodup s → addStmts s a stmts = .ok (s', a') → NamesNodup s'
+  | [], s, a, hn, h => by
+    simp only [addStmts, Except.ok.injEq, Prod.mk.injEq] at h
+    obtain ⟨h, _⟩ := h
+    subst h
+    exact hn
+  | st :: r, s, a, hn, h => by
+    simp only [addStmts] at h
+    cases hs : addStmt s a st with
+    | error e => simp [hs] at h
+    | ok res =>
+      obtain ⟨s1, a1⟩ := res
+      simp only [hs] at h
+      exact addStmts_namesNodup r s1 a1 (addStmt_namesNodup hn hs) h
+
+theorem addIO_tables {s s' : St} {ins outs : List Port} (h : addIO s ins outs = .ok s') :
+    s'.seqs = s.seqs ∧ s'.strands = s.strands ∧ s'.structs = s.structs ∧ s'.pfx = s.pfx := by
+  unfold addIO at h
+  simp only [bind, Except.bind, pure, Except.pure] at h
+  split at h
+  · cases h
+  · split at h
+    · cases h
+    · injection h with h
+      subst h
+      exact ⟨rfl, rfl, rfl, rfl⟩
+
+/-- after a successful load the three name tables of the component are duplicate-free -/
+theorem load_namesNodup {src : Src} {n : Nat} {pfx : String} {a : Nat} {st : St} {a' : Nat}
+    (h : load src n pfx a = .ok (st, a')) : NamesNodup st := by
+  unfold load at h
+  by_cases hn : (src.params.length != n) = true
+  · simp [hn, throw, throwThe, MonadExceptOf.throw, bind, Except.bind] at h
+  · simp only [hn, Bool.false_eq_true, if_false, bind, Except.bind, pure, Except.pure] at h
+    cases hs : addStmts { name := src.name, pfx := pfx, params := src.params } a src.stmts with
+    | error e => simp [hs] at h
+    | ok res =>
+      obtain ⟨s1, a1⟩ := res
+      simp only [hs] at h
+      cases hio : addIO s1 src.inputs src.outputs with
+      | error e => simp [hio] at h
+      | ok s2 =>
+        simp only [hio, Except.ok.injEq, Prod.mk.injEq] at h
+        obtain ⟨h, _⟩ := h
+        subst h
+        have hn1 := addStmts_namesNodup src.stmts _ a ⟨by simp, by simp, by simp⟩ hs
+        obtain ⟨e1, e2, e3, _⟩ := addIO_tables hio
+        exact ⟨e1 ▸ hn1.seqs, e2 ▸ hn1.strands, e3 ▸ hn1.structs⟩
+
+/-! ### names declared by the emitted statements -/
+
+/-- names declared in the sequence name space (`sequence` and `sup-sequence` statements), in order -/
+def seqDeclNames (l : List Pil.Stmt) : List String :=
+  l.filterMap (fun st => match st with | .seq n _ => some n | .sup n _ => some n | _ => none)
+def strandDeclNames (l : List Pil.Stmt) : List String :=
+  l.filterMap (fun st => match st with | .strand n _ _ => some n | _ => none)
+def structDeclNames (l : List Pil.Stmt) : List String :=
+  l.filterMap (fun st => match st with | .struct n _ _ _ => some n | _ => none)
+
+theorem eq_of_nodup_map {α β} {f : α → β} : ∀ {l : List α}, (l.map f).Nodup →
+    ∀ {x y : α}, x ∈ l → y ∈ l → f x = f y → x = y
+  | [], _, _, _, hx, _, _ => nomatch hx
+  | z :: r, h, x, y, hx, hy, hxy => by
+    simp only [List.map_cons, List.nodup_cons, List.mem_map, not_exists, not_and] at h
+    rcases List.mem_cons.1 hx with hxz | hxr <;> rcases List.mem_cons.1 hy with hyz | hyr
+    · rw [hxz, hyz]
+    · subst hxz; exact absurd hxy.symm (h.1 y hyr)
+    · subst hyz; exact absurd hxy (h.1 x hxr)
+    · exact eq_of_nodup_map h.2 hxr hyr hxy
+
+theorem nodup_map_inj {α β} {f : α → β} (hf : ∀ a b, f a = f b → a = b) {l : List α} (h : l.Nodup) :
+    (l.map f).Nodup :=
+  List.Pairwise.map f (fun a b hab c => hab (hf a b c)) h
+
+theorem nodup_filter_append {α β} {f : α → β} {l : List α} (h : (l.map f).Nodup) (q1 q2 : α → Bool)
+    (hd : ∀ x, q1 x = true → q2 x = true → False) : ((l.filter q1 ++ l.filter q2).map f).Nodup := by
+  rw [List.map_append, List.nodup_append]
+  refine ⟨List.Sublist.nodup (List.Sublist.map f List.filter_sublist) h,
+          List.Sublist.nodup (List.Sublist.map f List.filter_sublist) h, ?_⟩
+  intro a ha b hb hab
+  obtain ⟨x, hx, rfl⟩ := List.mem_map.1 ha
+  obtain ⟨y, hy, rfl⟩ := List.mem_map.1 hb
+  obtain ⟨hx1, hx2⟩ := List.mem_filter.1 hx
+  obtain ⟨hy1, hy2⟩ := List.mem_filter.1 hy
+  have := eq_of_nodup_map h hx1 hy1 hab
+  subst this
+  exact hd x hx2 hy2
+
+theorem filterMap_none' {α β} (l : List α) : l.filterMap (fun _ => (none : Option β)) = [] := by
+  induction l <;> simp_all
+
+theorem seqDeclNames_compStmts (s : St) :
+    seqDeclNames (Emit.compStmts s) =
+      (s.seqs.filter (fun e => e.len != 0 && !e.isSup) ++ s.seqs.filter (fun e => e.len != 0 && e.isSup)).map
+        (fun e => s.pfx ++ e.name) := by
+  simp [seqDeclNames, Emit.compStmts, List.filterMap_append, List.filterMap_map, Function.comp_def,
+    St.baseSeqs, St.supSeqs, List.filter_filter]
+
+theorem strandDeclNames_compStmts (s : St) :
+    strandDeclNames (Emit.compStmts s) = s.strands.map (fun e => s.pfx ++ e.name) := by
+  simp [strandDeclNames, Emit.compStmts, List.filterMap_append, List.filterMap_map, Function.comp_def, filterMap_none']
+
+theorem structDeclNames_compStmts (s : St) :
+    structDeclNames (Emit.compStmts s) = s.structs.map (fun e => s.pfx ++ e.name) := by
+  simp [structDeclNames, Emit.compStmts, List.filterMap_append, List.filterMap_map, Function.comp_def, filterMap_none']
+
+theorem nodup_prefixed {α} (p : String) (f : α → String) {l : List α} (h : (l.map f).Nodup) :
+    (l.map (fun e => p ++ f e)).Nodup := by
+  have := nodup_map_inj (f := fun x => p ++ x) (fun a b hab => (String.append_right_inj p).1 hab) h
+  simpa [List.map_map, Function.comp_def] using this
+
+theorem compStmts_names_nodup {s : St} (h : NamesNodup s) :
+    (seqDeclNames (Emit.compStmts s)).Nodup ∧ (strandDeclNames (Emit.compStmts s)).Nodup ∧
+      (structDeclNames (Emit.compStmts s)).Nodup := by
+  rw [seqDeclNames_compStmts, strandDeclNames_compStmts, structDeclNames_compStmts]
+  refine ⟨?_, nodup_prefixed s.pfx (fun (e : StrandE) => e.name) h.strands,
+    nodup_prefixed s.pfx (fun (e : StructE) => e.name) h.structs⟩
+  apply nodup_filter_append (nodup_prefixed s.pfx (fun (e : SeqE) => e.name) h.seqs)
+  intro x h1 h2
+  simp only [Bool.and_eq_true, Bool.not_eq_true'] at h1 h2
+  rw [h1.2] at h2
+  exact absurd h2.2 (by simp)
 
 end Pepper.CompShift
